@@ -22,6 +22,7 @@ import (
 	"os"
 	"path/filepath"
 	"reflect"
+	"regexp"
 	"sort"
 	"strings"
 	"testing"
@@ -106,6 +107,7 @@ type call struct {
 	Method string
 	NArgs  int
 	Kind   string
+	Params []any
 }
 
 type recorder struct {
@@ -116,7 +118,7 @@ type recorder struct {
 }
 
 func (r *recorder) rec(kind, method string, params []any) {
-	r.calls = append(r.calls, call{Method: method, NArgs: len(params), Kind: kind})
+	r.calls = append(r.calls, call{Method: method, NArgs: len(params), Kind: kind, Params: append([]any(nil), params...)})
 }
 
 func (r *recorder) invoke(h util.Uint160, method string, params ...any) (*result.Invoke, error) {
@@ -181,10 +183,24 @@ var (
 	samplePub *keys.PublicKey
 )
 
-func zeroArg(t reflect.Type) reflect.Value {
+// zeroArg builds a well-formed argument of type t that is different for every position j,
+// so that the forwarding order of arguments can be observed.
+func zeroArg(t reflect.Type, j int) reflect.Value {
 	switch {
 	case t == tBig:
-		return reflect.ValueOf(big.NewInt(0))
+		return reflect.ValueOf(big.NewInt(int64(100 + j)))
+	case t.Kind() == reflect.String:
+		return reflect.ValueOf(fmt.Sprintf("s%d", j)).Convert(t)
+	case t.Kind() == reflect.Slice && t.Elem().Kind() == reflect.Uint8:
+		return reflect.ValueOf([]byte{byte(j), 0xAB}).Convert(t)
+	case t.Kind() == reflect.Array && t.Elem().Kind() == reflect.Uint8:
+		v := reflect.New(t).Elem()
+		v.Index(0).SetUint(uint64(j))
+		return v
+	case t.Kind() == reflect.Bool:
+		return reflect.ValueOf(j%2 == 1)
+	case t.Kind() == reflect.Int || t.Kind() == reflect.Int64 || t.Kind() == reflect.Uint32:
+		return reflect.ValueOf(7 + j).Convert(t)
 	case t == tPub:
 		return reflect.ValueOf(samplePub)
 	case t == tPubs:
@@ -200,8 +216,13 @@ func zeroArg(t reflect.Type) reflect.Value {
 }
 
 // sweep calls every exported method of obj with zero-like arguments and returns what reached the recorder.
-func sweep(t *testing.T, r *recorder, obj any) map[string][]call {
-	out := map[string][]call{}
+type swept struct {
+	calls  []call
+	goargs []any
+}
+
+func sweep(t *testing.T, r *recorder, obj any) map[string]swept {
+	out := map[string]swept{}
 	v := reflect.ValueOf(obj)
 	for i := 0; i < v.NumMethod(); i++ {
 		m := v.Type().Method(i)
@@ -217,7 +238,7 @@ func sweep(t *testing.T, r *recorder, obj any) map[string][]call {
 				ok = false // needs a live object (e.g. wallet signer); not a contract method wrapper
 				break
 			}
-			args = append(args, zeroArg(it))
+			args = append(args, zeroArg(it, j))
 		}
 		if !ok {
 			continue
@@ -227,7 +248,11 @@ func sweep(t *testing.T, r *recorder, obj any) map[string][]call {
 			defer func() { _ = recover() }()
 			v.Method(i).Call(args)
 		}()
-		out[m.Name] = append([]call(nil), r.calls...)
+		ga := make([]any, len(args))
+		for k := range args {
+			ga[k] = args[k].Interface()
+		}
+		out[m.Name] = swept{calls: append([]call(nil), r.calls...), goargs: ga}
 	}
 	return out
 }
@@ -433,16 +458,43 @@ func TestDrive(t *testing.T) {
 			return found, arity, ret
 		}
 		res := sweep(t, recd, writers[d]) // *Contract embeds ContractReader: readers included
+		// methods of hand-written files next to the generated one (rpc/nns/hashes.go ...) are not generated bindings
+		handWritten := map[string]bool{}
+		files, _ := filepath.Glob(filepath.Join(chain.RepoRoot(), "rpc", d, "*.go"))
+		reMeth := regexp.MustCompile(`(?m)^func \(\w+ \*?Contract(?:Reader)?\) (\w+)\(`)
+		for _, f := range files {
+			if filepath.Base(f) == "rpcbinding.go" || strings.HasSuffix(f, "_test.go") {
+				continue
+			}
+			src, _ := os.ReadFile(f)
+			for _, m := range reMeth.FindAllStringSubmatch(string(src), -1) {
+				handWritten[m[1]] = true
+			}
+		}
 		names := make([]string, 0, len(res))
 		for k := range res {
 			names = append(names, k)
 		}
 		sort.Strings(names)
 		for _, gm := range names {
-			for _, cl := range res[gm] {
+			for _, cl := range res[gm].calls {
 				found, arity, ret := has(cl.Method, cl.NArgs)
+				// every argument of the Go method must reach the contract, in order (the `Expanded`
+				// flavour has one extra Go argument: the number of iterator items to fetch)
+				ga := res[gm].goargs
+				if cl.Kind == "expand" && len(ga) > 0 {
+					ga = ga[:len(ga)-1]
+				}
+				forwarded := len(ga) == len(cl.Params) || handWritten[gm]
+				if forwarded && !handWritten[gm] {
+					for k := range ga {
+						if !reflect.DeepEqual(ga[k], cl.Params[k]) {
+							forwarded = false
+						}
+					}
+				}
 				emit(chain.Rec{"act": "binding", "name": d, "gomethod": gm, "method": cl.Method, "nargs": cl.NArgs, "kind": cl.Kind,
-					"found": found, "arityOK": arity, "ret": ret, "res": "HALT"})
+					"found": found, "arityOK": arity, "ret": ret, "goargs": len(res[gm].goargs), "forwarded": forwarded, "res": "HALT"})
 				nBind++
 			}
 		}
